@@ -155,7 +155,23 @@ class CallGen:
         r = self.r
         self.tid = 0
         elems = r.choice([Q(['a', 'b', 'c']), Q([[1, 2], ['x']]), Q([['+', 1, 2], 'y']), Q([Q('a'), 1, Str('s')]), Q([':k', 'sym'])])
-        shape = r.choice(['if', 'cond', 'progn', 'let', 'opt', 'rest'])
+        shape = r.choice(['if', 'cond', 'progn', 'let', 'opt', 'rest', 'opt-omitted', 'opt-omitted', 'rest-omitted'])
+        if shape in ('opt-omitted', 'rest-omitted'):
+            # the tail call supplies fewer arguments than the activation before it had: the missing &optional parameters
+            # are nil and &rest is empty again, whatever they held in the previous activation
+            if shape == 'opt-omitted':
+                d = ['defun', 'walk', ['l', '&optional', 'seen', 'more'],
+                     ['cond', [['null', 'l'], ['list', Q('done'), 'seen', 'more']],
+                              [['eq', ['car', 'l'], Q('a')], ['walk', ['cdr', 'l'], self.tk(['car', 'l']), self.tk(['cdr', 'l'])]],
+                              [['eq', ['car', 'l'], Q('b')], ['walk', ['cdr', 'l'], self.tk(['list', 'seen'])]],
+                              [True, ['walk', ['cdr', 'l']]]]]
+            else:
+                d = ['defun', 'walk', ['l', '&rest', 'acc'], ['if', ['null', 'l'], ['list', Q('done'), 'acc'],
+                     ['if', ['eq', ['car', 'l'], Q('a')], ['walk', ['cdr', 'l'], self.tk(['car', 'l']), 'acc'], ['walk', ['cdr', 'l']]]]]
+            els = [r.choice(['a', 'b', 'c', 'a']) for _ in range(r.choice([1, 2, 3, 4, 5]))]
+            args = [Q(els)] + [r.choice([Q('s0'), 1, None]) for _ in range(r.choice([0, 1, 2]))]
+            call = r.choice([['walk'] + args, ['funcall', Q('walk')] + args, ['mapcar', ['lambda', ['e'], ['walk', ['list', 'e', Q('c')], 7]], Q(els)]])
+            return [[d, ['setq', 'a', 1], ['setq', 'y', 2], ['setq', 'x', 3], ['setq', 'sym', 4]], [call], [['list', 'a', 'y']]]
         step = ['walk', ['cdr', 'l'], self.tk(['cons', ['car', 'l'], 'acc'])]
         if shape == 'if': d = ['defun', 'walk', ['l', 'acc'], ['if', ['null', 'l'], 'acc', step]]
         elif shape == 'cond': d = ['defun', 'walk', ['l', 'acc'], ['cond', [['null', 'l'], 'acc'], [True, step]]]
